@@ -275,7 +275,11 @@ class BackendDisagreement(Exception):
 
 
 CROSS = os.environ.get("PYVC_CROSS") == "1"
-CROSS_STATS = {"agreed": 0, "unknown": 0}
+CROSS_STATS = {"agreed": 0, "unknown": 0, "skipped": 0}
+CROSS_BUDGET_S = float(os.environ.get("PYVC_CROSS_BUDGET") or 90)  # cvc5 seconds per worker process; VCs beyond it are counted as skipped, never as agreed
+CROSS_QUERY_MS = int(os.environ.get("PYVC_CROSS_QUERY_MS") or 4000)
+_CROSS_SPENT = [0.0]
+_CROSS_MEMO = {}
 
 
 def valid(pc, goal, want_model=True):
@@ -289,13 +293,20 @@ def valid(pc, goal, want_model=True):
         if r != "unsat":
             return {"sat": "refuted"}.get(r, "unknown"), m, total
         if CROSS and not z3.is_true(z3.simplify(g)):
+            if _CROSS_SPENT[0] >= CROSS_BUDGET_S:
+                CROSS_STATS["skipped"] += 1
+                STATS.by_backend["cvc5-recheck:skipped (budget)"] = STATS.by_backend.get("cvc5-recheck:skipped (budget)", 0) + 1
+                continue
             t0 = time.time()
-            c = cross_check(pc, g, timeout_ms=10000)
+            c = cross_check(pc, g, timeout_ms=CROSS_QUERY_MS)
+            _CROSS_SPENT[0] += time.time() - t0
             STATS.time += time.time() - t0
             STATS.by_backend["cvc5"] = STATS.by_backend.get("cvc5", 0) + 1
             if c == "refuted":
                 raise BackendDisagreement(f"z3 proves, cvc5 refutes: {str(g)[:300]}")
             CROSS_STATS["agreed" if c == "proved" else "unknown"] += 1
+            k_ = "cvc5-recheck:agreed" if c == "proved" else "cvc5-recheck:unknown (timeout)"
+            STATS.by_backend[k_] = STATS.by_backend.get(k_, 0) + 1
     return "proved", None, total
 
 
@@ -322,5 +333,7 @@ def cross_check(pc, goal, timeout_ms=None):
     cons = normalize(list(pc) + [z3.Not(goal)])
     s.add(relevant_axioms(cons))
     s.add(cons)
-    r = check_cvc5(s.to_smt2(), timeout_ms or DEFAULT_TIMEOUT_MS)
-    return {"unsat": "proved", "sat": "refuted"}.get(r, "unknown")
+    text = s.to_smt2()
+    if text not in _CROSS_MEMO:
+        _CROSS_MEMO[text] = check_cvc5(text, timeout_ms or DEFAULT_TIMEOUT_MS)
+    return {"unsat": "proved", "sat": "refuted"}.get(_CROSS_MEMO[text], "unknown")
